@@ -126,3 +126,13 @@ def c12_dateutil_first_std_onset(case, observed, expected):
     std = z[1]
     first_onset = std["start"] - std["from"]
     return case.get("t") == first_onset - 1 and isinstance(observed, dict) and observed.get("off") == std["to"]
+
+
+# ---------------------------------------------------------------- C13
+def c13_known_class(case, observed, expected):
+    """decided by TLC in Trace_VTimezone: every mismatching probe of the zone lies in the Displaced or ShortPeriod class"""
+    return bool(case.get("known_class"))
+
+
+def c13_apia_dateutil(case, observed, expected):
+    return case.get("tzid") == "Pacific/Apia" and case.get("provider") == "zoneinfo" and case.get("exc") == "ValueError"
